@@ -100,15 +100,22 @@ def showRes (r : Bytes × Option Term) : String :=
 
 /-- Phase 1: read with the sizes in turn (cycling) until a read returns an error or `limit`
 reads were made. Returns state, data, end, reads made. -/
-def phase1 {S : Type} (read : S → Nat → S × Bytes × Option Term) (sizes : List Nat) :
-    Nat → Nat → S → Bytes → S × Bytes × Option Term
+def phase1R {S : Type} (read : S → Nat → S × Bytes × Option Term) (sizes : List Nat) :
+    Nat → Nat → S → List Bytes → S × List Bytes × Option Term
   | 0, _, s, acc => (s, acc, none)
   | fuel + 1, i, s, acc =>
     let n := sizes.getD (i % sizes.length) 1
     let r := read s n
     match r.2.2 with
-    | some t => (r.1, acc ++ r.2.1, some t)
-    | none => phase1 read sizes fuel (i + 1) r.1 (acc ++ r.2.1)
+    | some t => (r.1, r.2.1 :: acc, some t)
+    | none => phase1R read sizes fuel (i + 1) r.1 (r.2.1 :: acc)
+
+/-- (the pieces are collected in reverse and joined once: one-byte reads of a 100 KiB body would
+otherwise cost a quadratic number of list cells) -/
+def phase1 {S : Type} (read : S → Nat → S × Bytes × Option Term) (sizes : List Nat)
+    (fuel i : Nat) (s : S) (acc : Bytes) : S × Bytes × Option Term :=
+  let r := phase1R read sizes fuel i s []
+  (r.1, acc ++ r.2.1.reverse.flatten, r.2.2)
 
 def phase2 {S : Type} (read : S → Nat → S × Bytes × Option Term) :
     S → List Nat → List (Bytes × Option Term)
